@@ -896,7 +896,7 @@ def value_expr(rng, depth):
         if k < 0.8:
             return "#\\" + rng.choice("aZ09(;#.'")
         if k < 0.95:
-            return "'" + rng.choice(["a", "foo", "+", "-", "...", "->x", "a.b", "x1", "list->vector", "<=?"])
+            return "'" + rng.choice(["a", "foo", "+", "-", "...", "->x", "a.b", "x1", "list->vector", "<=?", "quote", "quote", "quasiquote", "unquote", "unquote-splicing"])
         return "'()"
     k = rng.random()
     n = rng.randint(0, 6)
